@@ -63,6 +63,9 @@ struct Generator::GeneratorImpl
     bool isRootOperator(const AnalyserEquationAstPtr &ast) const;
     bool isPiecewiseStatement(const AnalyserEquationAstPtr &ast) const;
 
+    int codePrecedence(const AnalyserEquationAstPtr &ast) const;
+    std::string parenthesisedIfNeeded(const std::string &code, bool needed) const;
+
     void updateVariableInfoSizes(size_t &componentSize, size_t &nameSize,
                                  size_t &unitsSize,
                                  const AnalyserVariablePtr &variable) const;
